@@ -168,7 +168,8 @@ def run(ctx):
                              "paths %s placement %s" % ([pstr(p) for p in order], placement))
         res.count("e2e_overlap_programs", res.evaluations)
         # cycles of length 1..4 through each edge kind
-        kinds = ["call", "keep", "ref", "method", "object"]
+        # (the last two: a plain call next to a lambda / a nested function whose PARAMETER has the name of the called function)
+        kinds = ["call", "keep", "ref", "method", "object", "call_lambda_param", "call_def_param"]
         for n in range(1, 5):
             combos = list(itertools.product(kinds, repeat=n))
             if not thorough and len(combos) > 12:
@@ -179,6 +180,10 @@ def run(ctx):
                     nxt = "c%d" % ((i + 1) % n)
                     if kind == "call":
                         body = "    return %s()\n" % nxt
+                    elif kind == "call_lambda_param":
+                        body = "    best = sorted([(2, 1), (1, 2)], key=lambda %s: %s[1])\n    return %s()\n" % (nxt, nxt, nxt)
+                    elif kind == "call_def_param":
+                        body = "    def pick(%s):\n        return %s\n    pick(1)\n    return %s()\n" % (nxt, nxt, nxt)
                     elif kind == "keep":
                         body = "    return dds.keep('/cyc%d', %s)\n" % (i, nxt)
                     elif kind == "ref":
